@@ -138,6 +138,11 @@ def case(chk, i):
         for o in opaque:
             flags += ["--opaque-type", o.rust_name]
         flags += r.choice([[], ["--with-derive-default", "--with-derive-hash", "--with-derive-partialeq", "--with-derive-eq"], ["--no-layout-tests"]])
+        if r.random() < 0.3:
+            # some ParseCallbacks registered that have nothing to say about blocklisted types (the CLI's custom-derive / attribute callbacks):
+            # an unanswered question is "no"
+            flags += r.choice([["--with-derive-custom-struct", "ZZ_nomatch.*=Debug"], ["--with-attribute-custom", "ZZ_nomatch=#[allow(dead_code)]"],
+                               ["--with-derive-custom", "ZZ_nomatch=Clone", "--with-attribute-custom-struct", "ZZ_nomatch=#[must_use]"]])
         bnames = {b.rust_name for b in block} | {e.name for e in benum}
         onames = {o.rust_name for o in opaque}
         affected = {rr.rust_name for rr in named if rr.rust_name in bnames | onames or contains(rr, bnames | onames)}
